@@ -385,6 +385,11 @@ class BufferedFile(ClosingContextManager):
             raise IOError("File is closed")
         if not (self._flags & self.FLAG_WRITE):
             raise IOError("File not open for writing")
+        if self.seekable() and len(self._rbuffer) > 0:
+            # data was read ahead of the caller's position: writing continues
+            # from where the caller is, not from where the stream is
+            self._rbuffer = bytes()
+            self._realpos = self._pos
         if not (self._flags & self.FLAG_BUFFERED):
             self._write_all(data)
             return
